@@ -89,3 +89,24 @@ package parse
 //@     invariant forall j int {patch[j]} :: #k <= j && j < len(patch) ==> patch[j].Text == old(patch[j].Text) && patch[j].StartPos == old(patch[j].StartPos)
 //@     invariant minusLines.arr == 0 || fresh(minusLines.arr)
 //@     invariant plusLines.arr == 0 || fresh(plusLines.arr)
+
+// One side of a change, parsed (pgo.Parse over go/parser) and mapped back to the lines of the patch file.
+//@ func (p *parser) parsePatchVersion(name, f) (file, err)
+//@   trusted parses one side with pgo.Parse and records line positions in the file set (go/parser, go/token): summarised
+//@   ensures err == nil ==> file != nil && fresh(file) && file.Node != nil && file.Node.val != nil
+
+// The two sides of a change are exactly what their texts parse to - package clause, imports and code. The
+// only adjustment: when one side is a single expression and the other a statement list, the expression is
+// wrapped as a one-statement list; the guards (package, imports) of that side stay as written (C10).
+//@ func (p *parser) parsePatch(i, c) (patch, err)
+//@   requires p.fset != nil && c != nil
+//@   requires typing: forall k int {c.Patch[k]} :: 0 <= k && k < len(c.Patch) ==> c.Patch[k] != nil
+//@   requires typing: forall k int, l int {c.Patch[k], c.Patch[l]} :: 0 <= k && k < l && l < len(c.Patch) ==> c.Patch[k] != c.Patch[l]
+//@   at call (*parse.parser).parsePatchVersion#0 assert [C10,C13] the-before-side-is-parsed-from-the-minus-text: arg2 == ret("parse.splitPatch", 0, 0)
+//@   at call (*parse.parser).parsePatchVersion#1 assert [C10,C13] the-after-side-is-parsed-from-the-plus-text: arg2 == ret("parse.splitPatch", 0, 1)
+//@   ensures [C10] each-side-is-the-file-its-text-parsed-to: err == nil ==> patch != nil && patch.Minus == ret("(*parse.parser).parsePatchVersion", 0) && patch.Plus == ret("(*parse.parser).parsePatchVersion", 1)
+//@   at call (*parse.parser).parsePatchVersion#0 set sideImports0 = result0.Imports
+//@   at call (*parse.parser).parsePatchVersion#0 set sidePackage0 = result0.Package
+//@   at call (*parse.parser).parsePatchVersion#1 set sideImports1 = result0.Imports
+//@   at call (*parse.parser).parsePatchVersion#1 set sidePackage1 = result0.Package
+//@   ensures [C10] the-guards-of-a-side-stay-as-written: err == nil ==> patch.Minus.Imports == sideImports0 && patch.Minus.Package == sidePackage0 && patch.Plus.Imports == sideImports1 && patch.Plus.Package == sidePackage1
